@@ -3,7 +3,8 @@ import AiocoapModel.Oscore.ReplayWindow
 import AiocoapModel.Oscore.Responses
 /-! Line protocol for the replay-window model.
 
-`C12 W <size> <index> <bitfield> <op>*`   ops `v<n>` (is_valid) / `s<n>` (strike_out)
+`C12 W <size> <index> <bitfield> <op>*`   start state = `initialize_from_persisted` of (index, bitfield), which may
+   have been persisted by a window of another size; ops `v<n>` (is_valid) / `s<n>` (strike_out)
    → one result per op (`1`/`0` for v, `ok`/`err` for s) then `|<index>:<bitfield>`
 `C12 U <size> <win> <echo> <arrival>*`    win `u` | `i:<index>:<bitfield>`; echo `-` | n;
    arrival `<seq>:<0|1>:<echo|->` → outcome letters then `|<win>`
@@ -25,7 +26,7 @@ def parseWin (size : Nat) (s : String) : Option (Option RW) :=
   | ["i", i, b] => do
     let i ← i.toNat?
     let b ← b.toNat?
-    pure (some { size, index := i, bitfield := b })
+    pure (some (RW.fromPersisted size i b))
   | _ => none
 
 def parseArrival (s : String) : Option Arrival :=
@@ -73,10 +74,10 @@ def handleC12 (args : List String) : String :=
   | "W" :: size :: index :: bitfield :: ops =>
     match size.toNat?, index.toNat?, bitfield.toNat? with
     | some size, some index, some bitfield =>
-      -- size 0 trips an assertion in the implementation; stray bits beyond the size are outside
-      -- the representation invariant
-      if size = 0 ∨ bitfield ≥ 2 ^ size then "out-of-model" else
-      match windowOps { size, index, bitfield } ops with
+      -- size 0 trips an assertion in the implementation; the start state goes through
+      -- `initialize_from_persisted` (any bitfield, also one wider than the window)
+      if size = 0 then "out-of-model" else
+      match windowOps (RW.fromPersisted size index bitfield) ops with
       | some (w, out) => " ".intercalate out ++ s!" |{w.index}:{w.bitfield}"
       | none => "bad-op"
     | _, _, _ => "bad-op"
